@@ -22,7 +22,51 @@ PAIRS = [
     (5, 0, "clock", "rd"), (6, 0, "clock", "r"), (7, 6, "clock", "rd"),
     (8, 0, "rerun", "rd"),
     (9, 1, "restore", "rd"), (10, 1, "restore", "rd"),
+    # local-deletion policy, the node-local expiry sweep run in the middle of the log:
+    (12, 14, "localexpiry", "rd"),    # log years AFTER the node's clock: nothing is past expiry, nothing may change
+    (13, 15, "localexpiry", "u"),     # log years BEFORE the node's clock: equal up to the keys that ever had a TTL
 ]
+
+TTL_CMDS = ("setex", "expire", "hexpire", "lexpire", "sexpire", "zexpire", "bexpire")
+MULTI = ("del", "hmclear", "lmclear", "smclear", "zmclear")
+
+
+def req_keys(reqs):
+    """per request: (name, [primary keys])"""
+    out = []
+    for r in reqs.split(";"):
+        if not r:
+            continue
+        k, _, a = r.split(":", 2)
+        args = a.split(",") if a else []
+        if k != "R" or len(args) < 2:
+            out.append(("<%s>" % k, [], args))
+            continue
+        name = unh(args[0]).decode("latin1").lower()
+        if name in MULTI:
+            ks = args[1:]
+        elif name == "mset":
+            ks = args[1::2]
+        else:
+            ks = args[1:2]
+        out.append((name, ks, args))
+    return out
+
+
+def untainted_view(L, o):
+    """replies and dump restricted to the keys that never got a TTL in this log (local-deletion policy:
+    a node may physically remove, on its own clock, exactly the keys that are past their expiry)."""
+    rk = req_keys(L["reqs"])
+    tainted = set()
+    for name, ks, args in rk:
+        has_ex = name in TTL_CMDS or (name in ("set", "setifeq") and any(unh(x).lower() == b"ex" for x in args[3:]))
+        if has_ex:
+            tainted.update(ks)
+    reps = o["replies"].split(" ; ")
+    keep = [r for (name, ks, _), r in zip(rk, reps) if not (set(ks) & tainted)]
+    ents = [e for e in o["dump"].split(" || ") if e and not e.startswith("cnt(") and e.split("{")[0] not in tainted]
+    return " ; ".join(keep), " || ".join(ents)
+
 
 
 def unh(s):
@@ -109,6 +153,16 @@ def judge(logs, order, obs, pairs=None):
             st["comparisons"] += 1
             st["by_dim"][dim] = st["by_dim"].get(dim, 0) + 1
             A, B = o[a], o[b]
+            if what == "u":
+                ra, da = untainted_view(L, A)
+                rb, db = untainted_view(L, B)
+                if ra != rb:
+                    i, x, y = first_diff(rb, ra)
+                    fails.append(dict(log=lid, a=b, b=a, dim=dim, kind="replies",
+                                      what="reply %d (counting only requests on keys that never had a TTL) differs: %s vs %s" % (i, x, y)))
+                elif da != db:
+                    fails.append(dict(log=lid, a=b, b=a, dim=dim, kind="dump", what="dumps differ on keys that never had a TTL"))
+                continue
             if "r" in what and A["replies"] != B["replies"]:
                 i, x, y = first_diff(B["replies"], A["replies"])
                 fails.append(dict(log=lid, a=b, b=a, dim=dim, kind="replies",
@@ -120,9 +174,25 @@ def judge(logs, order, obs, pairs=None):
     return fails, st
 
 
-def signature_of(dim, kind, shrunk_names, policy):
-    core = "+".join(sorted(set(shrunk_names)))
-    return "%s/%s: %s" % (dim, kind, core)
+BATCHABLE = ("set", "setex", "del", "hmset")
+SIG_ABORT = "batching: a batchable command that fails at apply aborts the whole batch (AbortBatchForError)"
+SIG_HLL = ("restore: HyperLogLog write-back cache (pfadd reaches the engine only when the cache is flushed: "
+           "checkpoint, restart, eviction)")
+
+
+def signature_of(dim, kind, shrunk_names, policy, observed=None):
+    """The input class of a (shrunk) failing case. Two classes have a canonical name because the same
+    cause shows up with many different victim commands; everything else is dimension + the commands left."""
+    names = set(shrunk_names)
+    if dim == "restore" and "pfadd" in names:
+        return SIG_HLL
+    if dim == "batching" and observed:
+        # a batchable command that replies an error when applied alone, and another request whose
+        # reply changes when they are delivered together
+        alone = list(observed.values())[0]["replies"].split(" ; ")
+        if any(r == "-err" and n in BATCHABLE for r, n in zip(alone, shrunk_names)):
+            return SIG_ABORT
+    return "%s/%s: %s" % (dim, kind, "+".join(sorted(names)))
 
 
 class Runner:
@@ -221,7 +291,7 @@ def process_failures(R, logs, fails, max_shrinks):
                 out.append(dict(name="flaky-" + tag, case=dict(cases_tsv=lines), signature=None,
                                 what="two runs of %s differed once but not when re-run (%s): nondeterminism" % (f["log"], f["what"])))
                 continue
-        sig = signature_of(f["dim"], cf[0]["kind"], names, L["policy"])
+        sig = signature_of(f["dim"], cf[0].get("kind", f["kind"]), names, L["policy"], o)
         out.append(dict(name="%s-%s" % (f["dim"], vlib.case_hash("\n".join(lines))),
                         case=dict(cases_tsv=lines, dimension=f["dim"], policy=L["policy"], log=decode_log(lines[0]),
                                   variant_a=lines[1].split("\t")[2:], variant_b=lines[2].split("\t")[2:],
